@@ -932,6 +932,28 @@ Proof.
       match type of Hw with _ <= blen (pg_md5_of_shadow _ ?h ?s) => specialize (Hexp h s) end. lia.
 Qed.
 
+(** the startup packet itself can no longer panic the task (5c1953d): inside Client::startup the only
+    panic left is the PasswordMessage length *)
+Lemma startup_panic_only_password_len : forall c sd salt payload rest e,
+  out (startup md5 chk c sd salt payload rest e) = TaskPanic -> read_password chk rest = PwPanic.
+Proof.
+  intros c sd salt payload rest e H. unfold startup in H.
+  destruct (ident payload) as [n d| |] eqn:Ei; try discriminate.
+  destruct (is_admin_db d) eqn:Ea; cbn [negb andb] in H.
+  { destruct (admin_auth c); [discriminate|].
+    destruct (admin_md5_cases md5 chk c e n salt rest) as (_ & _ & [(b & t & _ & _ & Ho & _)|[(w & Ho & _)|(_ & _ & Hp)]]);
+      [rewrite Ho in H; discriminate|rewrite Ho in H; discriminate|exact Hp]. }
+  destruct sd; [discriminate|].
+  destruct (get_pool c d n) as [[p u]|]; [|discriminate].
+  destruct (u_auth u).
+  - destruct (finish_user_cases e d n [] [] (cached e)) as (_ & _ & [(Ho & _)|(Ho & _)]); rewrite Ho in H; discriminate.
+  - destruct (user_md5_cases md5 chk c e p u d n salt rest) as [(body & tail & ev & c' & _ & _ & _ & Hf)|[(w & Ho & _)|(_ & _ & _ & Hp)]].
+    + rewrite Hf in H.
+      destruct (finish_user_cases e d n [RMd5Request salt] ev c') as (_ & _ & [(Ho & _)|(Ho & _)]); rewrite Ho in H; discriminate.
+    + rewrite Ho in H. discriminate.
+    + exact Hp.
+Qed.
+
 (** *** and the right answer is accepted (the hypotheses above are not vacuous) *)
 Lemma correct_response_admitted : forall c salt payload e name db p u pw tail,
   user_login c payload name db p u -> u_password u = Some pw ->
